@@ -142,6 +142,20 @@ class C02Spec(ModelSpec):
         self.ops = ops
 
 
+# two calls on one store instance that share no pid, cid or file: whatever the package keeps in memory between two
+# lines is the only thing they can share (explored by engine L: one pre-emption at every source line)
+LINE_LEVEL = [
+    {"name": "get_hex_digest(p1,sha256)||get_hex_digest(p2,md5) from p1A,p2B", "init": "p1A,p2B", "pids": ("p1", "p2"),
+     "threads": {"T1": [("hexdigest", "p1", "sha256")], "T2": [("hexdigest", "p2", "md5")]}},
+    {"name": "get_hex_digest(p1,sha3_256)||get_hex_digest(p2,sha3_256) from p1A,p2B", "init": "p1A,p2B", "pids": ("p1", "p2"),
+     "threads": {"T1": [("hexdigest", "p1", "sha3_256")], "T2": [("hexdigest", "p2", "sha3_256")]}},
+    {"name": "get_hex_digest(p1,sha1)||store(p3,L,+blake2b) from p1A,p2B", "init": "p1A,p2B", "pids": ("p1", "p2", "p3"),
+     "threads": {"T1": [("hexdigest", "p1", "sha1")], "T2": [("store", "p3", "L", "add:blake2b")]}},
+    {"name": "store(p1,A,+sha224)||store(p2,B,+blake2s) from empty", "init": "empty", "pids": ("p1", "p2"),
+     "threads": {"T1": [("store", "p1", "A", "add:sha224")], "T2": [("store", "p2", "B", "add:blake2s")]}},
+]
+
+
 def main(tier):
     rep = common.Report("C02", tier, "model_checking")
     tasks = [(c, [a]) for c in CONTENTS for a in [None] + ALL_ALGOS]
@@ -168,7 +182,11 @@ def main(tier):
                          "spellings": {a: spellings(a) for a in ALL_ALGOS}})
     run_spec(rep, C02Spec(tier), "one-instance-histories", max_depth=8 if tier == "quick" else 14,
              time_cap=300 if tier == "quick" else 3000)
-    rep.assumptions += ["engine S carries the instance's plain-data attributes from call to call, so a call that "
+    from ._t import line_level_part
+    line_level_part(rep, LINE_LEVEL)
+    rep.assumptions += ["line level (engine L): two calls on ONE instance with one pre-emption at every source line of the "
+                        "package; each call's value must be what it is in a sequential run",
+                        "engine S carries the instance's plain-data attributes from call to call, so a call that "
                         "changes instance state is seen by every later call of the history",
                         "spellings: hashlib name in lower/upper/mixed case, '-'/'_' variants, DataONE forms"]
     return rep.finish(rep._samples)
